@@ -46,10 +46,12 @@ def run(tier, replay):
         if tier == "quick":
             import random
             rng = random.Random(vlib.seed())
-            must = [c for c in cases if c["crash"] or c["cmd"]["env"] != "ok" or c["cmd"]["word"] not in ("cat", "grep", "tail")]
+            basic_files = ("existing", "missing", "directory", "emptyglob")
+            must = [c for c in cases if c["crash"] or c["cmd"]["env"] != "ok" or c["cmd"]["word"] not in ("cat", "grep", "tail")
+                    or (c["cmd"]["file"] not in basic_files and c["cmd"]["opts"] == "none")]
             rest = [c for c in cases if c not in must]
             rng.shuffle(rest)
-            cases = must[:400] + rest[:350]
+            cases = must[:500] + rest[:350]
         cj, oj = os.path.join(wd, "cases.json"), os.path.join(wd, "out.json")
         json.dump(cases, open(cj, "w"))
         rc, out = vlib.go_test(wd, "./internal/server/handlers", OV, "TestC10Parent", env={"VERIF_CASES": cj, "VERIF_OUT": oj}, timeout=3400)
